@@ -15,7 +15,10 @@ EXTENDS Naturals, Sequences, FiniteSets, TLC, Json
 CONSTANT Repaired
 
 Kinds == {"source", "ordinary", "multi", "down", "loop", "cut", "overlap"}
-Viols == {"wrong_dtype_bare", "wrong_dtype_chunk", "rows_early", "rows_late", "wrong_label", "overlap", "gap", "non_dict"}
+\* rows_late: the last row ends after the chunk; rows_late_inner: an earlier row does (rows are sorted by start, not by end:
+\* Chunk.__init__ looks at the ends of the last 500 rows)
+Viols == {"wrong_dtype_bare", "wrong_dtype_chunk", "rows_early", "rows_late", "rows_late_inner", "wrong_label", "overlap", "gap", "non_dict"}
+Outside == {"rows_early", "rows_late", "rows_late_inner"}
 Positions == {"first", "middle", "last"}
 Procs == {"single_thread", "threaded_mailbox"}
 
@@ -46,7 +49,7 @@ Pass(next) == pc' = next /\ by' = by
 \* Chunk.__init__ runs in the plugin's compute
 UserChunkInit ==
   /\ pc = "produced" /\ Wrapped(kind, viol)
-  /\ IF viol \in {"rows_early", "rows_late"} THEN Reject("Chunk.__init__: data outside chunk")
+  /\ IF viol \in Outside THEN Reject("Chunk.__init__: data outside chunk")
      ELSE IF viol = "wrong_dtype_chunk" /\ Repaired THEN Reject("Chunk.__init__: dtype")
      ELSE IF viol = "wrong_dtype_bare" THEN Pass("fixout")      \* a source returning a bare array
      ELSE Pass("fixout")
@@ -60,7 +63,7 @@ FixOutput ==
      ELSE IF kind = "source" /\ viol = "wrong_dtype_bare" THEN Reject("_fix_output: plugins without dependencies must return chunks")
      ELSE IF ~Wrapped(kind, viol) THEN     \* bare array: _check_dtype, then Plugin.chunk -> Chunk.__init__
         IF viol = "wrong_dtype_bare" THEN Reject("_check_dtype")
-        ELSE IF viol \in {"rows_early", "rows_late"} THEN Reject("Chunk.__init__: data outside chunk")
+        ELSE IF viol \in Outside THEN Reject("Chunk.__init__: data outside chunk")
         ELSE Pass("continuity")
      ELSE IF viol = "wrong_label" THEN Reject("_fix_output: data_type")
      ELSE Pass("continuity")
